@@ -83,7 +83,9 @@ func newC11Origin() (*c11Origin, error) {
 		if sc != nil && step < len(sc.loc) {
 			if sc.loc[step] != "" {
 				w.Header().Set("Location", sc.loc[step])
-			} // else: a scripted final answer of one attempt (e.g. 503)
+			} else if sc.status[step] == 401 { // a scripted final answer (503: retry; 401: digest challenge)
+				w.Header().Set("WWW-Authenticate", `Digest realm="c11", nonce="abcdef0123456789", qop="auth", algorithm=MD5`)
+			}
 			w.WriteHeader(sc.status[step])
 			return
 		}
@@ -647,6 +649,7 @@ func c11EndToEnd(r *hk.Run, rng *hk.Rand) {
 	c11Concurrent(r, rng, o, r.Scale(120, 2400))
 	c11Retries(r, rng, o, r.Scale(60, 1200))
 	c11Downloads(r, rng, o, r.Scale(60, 1200))
+	c11Digests(r, rng, o, r.Scale(60, 1200))
 }
 
 // (b1) one chain through a fresh client
